@@ -30,6 +30,7 @@ import (
 	"net"
 	"os"
 	"regexp"
+	"runtime"
 	"runtime/debug"
 	"strconv"
 	"strings"
@@ -58,6 +59,11 @@ type vPStep struct {
 	Sent  string  `json:"sent"` // sentinel to append: "bin" | "text" | "none"
 	Wait  int     `json:"wait"` // ms to wait for the sentinel (default 400)
 	Mode  string  `json:"mode"` // how to read the reply: "bin" | "text"
+	// output-path deliveries (spec/OutBuf.tla, spec/mon/MonOutBuf.tla): "bin" | "text" = parse everything the server
+	// sends during the step into reply frames and record the sizes of the reads (net.Pipe: one read = one conn.Write
+	// of the server); Ob (what the generator expects of the step) is echoed into the trace
+	Rec string          `json:"rec"`
+	Ob  json.RawMessage `json:"ob"`
 }
 
 type vPDelivery struct {
@@ -73,15 +79,129 @@ type vPObs struct {
 	Closed  bool   `json:"closed"`
 	Blocked bool   `json:"blocked"`
 	N       int    `json:"n"` // bytes received during the step
+	// only for steps with Rec set
+	Chunks []int      `json:"chunks,omitempty"` // sizes of the client's reads = of the server's writes
+	Frames []vPFrameO `json:"frames,omitempty"` // the replies, parsed
+	Junk   *int       `json:"junk,omitempty"`   // offset at which the reply stream stopped being parseable (-1: clean)
+}
+
+// vPFrameO: one reply as the client read it back
+type vPFrameO struct {
+	Rid string `json:"rid"` // binary: request id (hex)   text: ""
+	T   int    `json:"t"`   // binary: command type       text: first byte of the reply
+	Res int    `json:"res"` // binary: result code        text: -1
+	D   int    `json:"d"`   // binary: length of the data frame incl. its 4-byte length (0: none)   text: bulk length / element count, -1 if n/a
+	N   int    `json:"n"`   // total bytes of the reply
+	Sum string `json:"sum"` // FNV-1a of the data frame (binary) / of the whole reply (text), hex
+}
+
+func vPFnv(b []byte) string {
+	h := uint32(2166136261)
+	for _, c := range b {
+		h ^= uint32(c)
+		h *= 16777619
+	}
+	return fmt.Sprintf("%08x", h)
+}
+
+// vPParseBin: the binary reply stream is self-delimiting: 64-byte header, and when flag bit 0x20 of a LOCK / UNLOCK
+// result (or the content length of a CALL result) says so a trailing frame
+func vPParseBin(out []byte) ([]vPFrameO, int) {
+	frames := []vPFrameO{}
+	o := 0
+	for o < len(out) {
+		if len(out)-o < 64 || out[o] != 0x56 || out[o+1] != 0x01 {
+			return frames, o
+		}
+		h := out[o : o+64]
+		f := vPFrameO{Rid: hex.EncodeToString(h[3:19]), T: int(h[2]), Res: int(h[19]), N: 64, Sum: ""}
+		end := o + 64
+		if (h[2] == 1 || h[2] == 2) && h[20]&0x20 != 0 {
+			if len(out)-end < 4 {
+				return frames, o
+			}
+			n := int(uint32(out[end]) | uint32(out[end+1])<<8 | uint32(out[end+2])<<16 | uint32(out[end+3])<<24)
+			if n < 0 || len(out)-end-4 < n {
+				return frames, o
+			}
+			f.D = n + 4
+			f.Sum = vPFnv(out[end : end+4+n])
+			end += 4 + n
+		}
+		f.N = end - o
+		frames = append(frames, f)
+		o = end
+	}
+	return frames, -1
+}
+
+// vPRespEnd: end offset of the RESP reply that starts at o, -1 if malformed / incomplete; second value: bulk length / element count
+func vPRespEnd(out []byte, o int, depth int) (int, int) {
+	if o >= len(out) || depth > 4 {
+		return -1, -1
+	}
+	nl := bytes.Index(out[o:], []byte("\r\n"))
+	if nl < 0 {
+		return -1, -1
+	}
+	line := string(out[o+1 : o+nl])
+	after := o + nl + 2
+	switch out[o] {
+	case '+', '-', ':':
+		return after, -1
+	case '$':
+		n, err := strconv.Atoi(line)
+		if err != nil {
+			return -1, -1
+		}
+		if n < 0 {
+			return after, n
+		}
+		if len(out)-after < n+2 || out[after+n] != '\r' || out[after+n+1] != '\n' {
+			return -1, -1
+		}
+		return after + n + 2, n
+	case '*':
+		n, err := strconv.Atoi(line)
+		if err != nil {
+			return -1, -1
+		}
+		p := after
+		for i := 0; i < n; i++ {
+			e, _ := vPRespEnd(out, p, depth+1)
+			if e < 0 {
+				return -1, -1
+			}
+			p = e
+		}
+		return p, n
+	}
+	return -1, -1
+}
+
+func vPParseText(out []byte) ([]vPFrameO, int) {
+	frames := []vPFrameO{}
+	o := 0
+	for o < len(out) {
+		e, n := vPRespEnd(out, o, 0)
+		if e < 0 {
+			return frames, o
+		}
+		frames = append(frames, vPFrameO{T: int(out[o]), Res: -1, D: n, N: e - o, Sum: vPFnv(out[o:e])})
+		o = e
+	}
+	return frames, -1
 }
 
 type vPWorld struct {
-	slock  *SLock
-	srv    *Server
-	dir    string
-	probe  net.Conn
-	probeS *Stream
-	nonce  uint64
+	slock            *SLock
+	srv              *Server
+	dir              string
+	probe            net.Conn
+	probeS           *Stream
+	nonce            uint64
+	probeNote        string // detail of the last failed probe
+	probeUnsolicited int    // unsolicited notices skipped by the probe connection
 }
 
 // budget of one probe: generous, the machine may be heavily loaded and a false "not served" is not acceptable
@@ -188,22 +308,45 @@ func (w *vPWorld) probeOld() string {
 	ping := vPFrame(5, w.nextNonce(), nil)
 	lock := vPFrame(1, w.nextNonce(), rest)
 	unlock := vPFrame(2, w.nextNonce(), rest)
+	frames := [][]byte{ping, lock, unlock}
+	// ... and a fresh key of the dbs the generated classes work in (0, 1, 3): a delivery that leaves a whole db stuck
+	// (every later request on it unanswered) has taken the service away from every other client of that db
+	for _, db := range []byte{0, 1, 3} {
+		k2 := w.nextNonce()
+		r2 := make([]byte, 45)
+		r2[1] = db
+		copy(r2[2:18], k2[:])
+		copy(r2[18:34], k2[:])
+		r2[34], r2[38] = 0, 5
+		frames = append(frames, vPFrame(1, w.nextNonce(), r2), vPFrame(2, w.nextNonce(), r2))
+	}
 	_ = c.SetDeadline(time.Now().Add(vPProbeBudget))
-	for _, fr := range [][]byte{ping, lock, unlock} {
+	for pi, fr := range frames {
 		if _, err := c.Write(fr); err != nil {
 			return "write-failed"
 		}
 		buf := make([]byte, 64)
-		if _, err := readFull(c, buf); err != nil {
-			if strings.Contains(err.Error(), "timeout") {
-				return "noreply"
+		for skipped := 0; ; skipped++ {
+			if _, err := readFull(c, buf); err != nil {
+				if strings.Contains(err.Error(), "timeout") {
+					return "noreply"
+				}
+				return "closed"
 			}
-			return "closed"
+			// an unsolicited EXPRIED / TIMEOUT notice about one of the probe's own earlier locks is not the answer
+			// awaited: skipped (whether such a notice is right is a question of the lock properties, not of C13)
+			if skipped < 8 && buf[0] == 0x56 && (buf[2] == 1 || buf[2] == 2) && (buf[19] == 8 || buf[19] == 9) && buf[20]&0x20 == 0 && !bytes.Equal(buf[3:19], fr[3:19]) {
+				w.probeUnsolicited++
+				continue
+			}
+			break
 		}
 		if buf[0] != 0x56 || buf[2] != fr[2] || !bytes.Equal(buf[3:19], fr[3:19]) {
+			w.probeNote = fmt.Sprintf("request %d of the probe (type %d, db %d): got %x", pi, fr[2], fr[20], buf[:40])
 			return "garbled"
 		}
 		if buf[19] != 0 {
+			w.probeNote = fmt.Sprintf("request %d of the probe (type %d, db %d): result %d", pi, fr[2], fr[20], buf[19])
 			return "refused" + strconv.Itoa(int(buf[19]))
 		}
 	}
@@ -279,6 +422,7 @@ type vPClient struct {
 	c     net.Conn
 	mu    sync.Mutex
 	out   []byte
+	chunk []int // sizes of the reads that make up out
 	eof   bool
 	sig   chan struct{}
 	rdone chan struct{}
@@ -288,12 +432,13 @@ func vPNewClient(c net.Conn) *vPClient {
 	cl := &vPClient{c: c, sig: make(chan struct{}, 1), rdone: make(chan struct{})}
 	go func() {
 		defer close(cl.rdone)
-		buf := make([]byte, 1<<16)
+		buf := make([]byte, 1<<17) // larger than any single write of the server in the generated deliveries
 		for {
 			n, err := c.Read(buf)
 			cl.mu.Lock()
 			if n > 0 && len(cl.out) < 1<<22 {
 				cl.out = append(cl.out, buf[:n]...)
+				cl.chunk = append(cl.chunk, n)
 			}
 			if err != nil {
 				cl.eof = true
@@ -333,11 +478,16 @@ func (cl *vPClient) wait(pred func(out []byte, eof bool) bool, d time.Duration, 
 }
 
 func (cl *vPClient) take() ([]byte, bool) {
-	cl.mu.Lock()
-	o, e := cl.out, cl.eof
-	cl.out = nil
-	cl.mu.Unlock()
+	o, e, _ := cl.takeChunks()
 	return o, e
+}
+
+func (cl *vPClient) takeChunks() ([]byte, bool, []int) {
+	cl.mu.Lock()
+	o, e, ch := cl.out, cl.eof, cl.chunk
+	cl.out, cl.chunk = nil, nil
+	cl.mu.Unlock()
+	return o, e, ch
 }
 
 func vPClassify(out []byte, mode string) (string, int) {
@@ -409,7 +559,8 @@ type vPResult struct {
 	stack   string
 	probe   string
 	probe2  string
-	hclosed bool // the server-side goroutine of the delivery finished
+	hclosed bool   // the server-side goroutine of the delivery finished
+	stacks  string // all goroutines, taken when a probe was not answered
 }
 
 func (w *vPWorld) runDelivery(d *vPDelivery, noRecover bool) *vPResult {
@@ -534,10 +685,32 @@ func (w *vPWorld) runDelivery(d *vPDelivery, noRecover bool) *vPResult {
 			// nothing to wait for explicitly: give the server a moment to react (reply, close)
 			cl.wait(func(out []byte, eof bool) bool { return eof }, wait/4, panicked)
 		}
-		out, eof := cl.take()
+		out, eof, chunks := cl.takeChunks()
 		seen := token != nil && bytes.Contains(out, token)
 		if seen {
 			out = out[:bytes.Index(out, token)]
+		}
+		if st.Rec != "" {
+			// the reads that lie before the sentinel's reply
+			ob.Chunks = []int{}
+			tot := 0
+			for _, n := range chunks {
+				if tot+n > len(out) {
+					if tot < len(out) {
+						ob.Chunks = append(ob.Chunks, len(out)-tot)
+					}
+					break
+				}
+				ob.Chunks = append(ob.Chunks, n)
+				tot += n
+			}
+			junk := -1
+			if st.Rec == "bin" {
+				ob.Frames, junk = vPParseBin(out)
+			} else {
+				ob.Frames, junk = vPParseText(out)
+			}
+			ob.Junk = &junk
 		}
 		ob.N = len(out)
 		ob.R, ob.Res = vPClassify(out, st.Mode)
@@ -579,6 +752,14 @@ func (w *vPWorld) runDelivery(d *vPDelivery, noRecover bool) *vPResult {
 			if res.probe2 == "noreply" {
 				res.probe2 = w.probeNew()
 			}
+		}
+		if res.probe != "ok" || res.probe2 != "ok" {
+			buf := make([]byte, 1<<20)
+			buf = buf[:runtime.Stack(buf, true)]
+			if len(buf) > 200000 {
+				buf = buf[:200000]
+			}
+			res.stacks = string(buf)
 		}
 	} else {
 		res.probe, res.probe2 = "skipped", "skipped"
@@ -654,7 +835,12 @@ func TestVerifProto(t *testing.T) {
 			t.Fatalf("bad delivery line %d: %v", idx, err)
 		}
 		_, _ = journal.WriteString("B " + strconv.Itoa(idx) + " " + d.Name + "\n")
+		t0 := time.Now()
+		var ms0, ms1 runtime.MemStats
+		runtime.ReadMemStats(&ms0)
 		r := w.runDelivery(&d, noRecover)
+		ms := time.Since(t0).Milliseconds()
+		runtime.ReadMemStats(&ms1)
 		r.idx = idx
 		r.pmu.Lock()
 		r.late = true
@@ -666,6 +852,35 @@ func TestVerifProto(t *testing.T) {
 		}
 		ev := map[string]interface{}{"e": "d", "idx": idx, "name": d.Name, "cls": cls, "obs": r.obs, "panic": pv0 != "",
 			"kind": "", "site": "", "msg": "", "probe": r.probe, "probe2": r.probe2, "done": true, "hclosed": r.hclosed, "path": d.Path}
+		ev["ms"] = ms
+		if mb := (ms1.TotalAlloc - ms0.TotalAlloc) >> 20; mb >= 256 {
+			// bytes the process allocated while the delivery ran (the delivery's own bytes are at most a few MiB)
+			ev["alloc_mb"] = mb
+			// the children run under an address-space limit: give a block of that size back at once, or the next
+			// small allocation of an innocent delivery may be the one that does not fit
+			debug.FreeOSMemory()
+		}
+		if w.probeUnsolicited > 0 {
+			ev["probe_unsolicited"] = w.probeUnsolicited
+			w.probeUnsolicited = 0
+		}
+		if r.stacks != "" {
+			ev["stacks"] = r.stacks
+			ev["probe_note"] = w.probeNote
+		}
+		for i := range d.Steps {
+			if len(d.Steps[i].Ob) > 0 {
+				obs := make([]json.RawMessage, len(d.Steps))
+				for j := range d.Steps {
+					obs[j] = d.Steps[j].Ob
+					if len(obs[j]) == 0 {
+						obs[j] = json.RawMessage(`{"fam":"none"}`)
+					}
+				}
+				ev["ob"] = obs
+				break
+			}
+		}
 		if pv0 != "" {
 			ev["kind"], ev["site"], ev["msg"] = vPKind(pv0), vPSite(stack0), pv0
 		} else if !r.hclosed {
